@@ -1,7 +1,7 @@
 ----------------------------- MODULE Trace_Conn -----------------------------
 (* impl -> spec: runs of the whole stack (vh-sim) over the in-memory network, judged against Conn.tla *)
 EXTENDS Conn, TLC, Json, IOUtils
-VARIABLE l
+VARIABLES l, flag
 Rec_ == ndJsonDeserialize(IOEnv.TRACE)
 NE == Len(Rec_)
 e == Rec_[l]
@@ -25,9 +25,12 @@ TApp == Ev("app") /\ c' = (CASE e.op = "write" -> AppWrite(c, e.side, e.sid, e.n
 TPanic == Ev("panic") /\ c' = Panic(c)
 TFinal == Ev("final") /\ c' = Final(c, e.cli_done, e.cli_ok, e.srv_done)
 
-TraceInit == l = 1 /\ c = CInit(FALSE)
-TraceNext == TReset \/ TDgram \/ TDlv \/ TUndeliverable \/ TQ \/ TApp \/ TPanic \/ TFinal
+TraceInit == l = 1 /\ c = CInit(FALSE) /\ flag = FALSE
+TraceNext == (TReset \/ TDgram \/ TDlv \/ TUndeliverable \/ TQ \/ TApp \/ TPanic \/ TFinal)
+             /\ flag' = (c.ok /\ ~c'.ok)
 ContractHolds == c.ok \/ PrintT(<<"CONTRACT", c.why>>) = FALSE
+\* reported once, at the step that broke the contract; validation of the following runs continues
+SoftContract == ~flag \/ PrintT(<<"SOFT_VIOLATION", "Contract", l, c.why>>)
 TraceAccepted ==
     LET d == TLCGet("stats").diameter IN
     IF d - 1 = NE THEN TRUE
